@@ -105,8 +105,9 @@ class Check:
             print(f"NOTE: listed finding no longer reported on this tree: {k}")
         replay = None
         if unlisted:
-            os.makedirs(os.path.join(VERIF, "out"), exist_ok=True)
-            replay = os.path.join(VERIF, "out", f"replay_{self.pid}.json")
+            outdir = os.environ.get("VERIF_OUT") or os.path.join(VERIF, "out")
+            os.makedirs(outdir, exist_ok=True)
+            replay = os.path.join(outdir, f"replay_{self.pid}.json")
             with open(replay, "w") as f:
                 json.dump({"property": self.pid, "tier": self.tier,
                            "findings": [o.as_dict() for o in unlisted]}, f, indent=1)
@@ -159,6 +160,8 @@ class Check:
             "wall_s": round(time.time() - self.t0, 3),
             "violations": violations,
         }
+        if os.environ.get("VERIF_NO_EVIDENCE"):
+            return
         os.makedirs(os.path.join(VERIF, "evidence"), exist_ok=True)
         with open(os.path.join(VERIF, "evidence", f"{self.pid}.json"), "w") as f:
             json.dump(ev, f, indent=1, default=str)
